@@ -298,7 +298,7 @@ func (g *Gen) checkStoreRules(x *ssa.Store, a *Addr, v Val, st *State) {
 func (g *Gen) execCall(x *ssa.Call, c *ssa.CallCommon, st *State, deferred bool) {
 	if b, ok := c.Value.(*ssa.Builtin); ok {
 		var matched []*CallRule
-		if b.Name() == "append" || b.Name() == "delete" || b.Name() == "copy" {
+		if b.Name() == "append" || b.Name() == "delete" || b.Name() == "copy" || b.Name() == "len" {
 			matched = g.callRulesPre(c, st, "")
 		}
 		g.execBuiltin(x, b, c, st)
